@@ -37,6 +37,12 @@ Theorem C05_bw_expression_parser_total : forall is_alnum is_num is_ws s,
 Proof. exact parse_total. Qed.
 Print Assumptions C05_bw_expression_parser_total.
 
+(** the same for QueryParser::parse (empty query, trimming, an optional leading `NOT `, then the expression parser) *)
+Theorem C05_bw_query_parser_total : forall is_alnum is_num is_ws s,
+  BwExpr.query_parse is_alnum is_num is_ws s <> BwExpr.Panic /\ BwExpr.query_parse is_alnum is_num is_ws s <> BwExpr.Fuel.
+Proof. exact query_parse_total. Qed.
+Print Assumptions C05_bw_query_parser_total.
+
 (** non-vacuity: the pre-repair witnesses are now plain errors naming the right leaf *)
 Example C05_example :
   shape_ident [233; 43; 97] = RErrField [233]            (* "é+a"  *)
